@@ -125,3 +125,9 @@ TOP = {
     "C16": dict(level="proof", theorems=["Contracts.Relabel.permute_molecule_spec", "Contracts.Relabel.permute_molecule_rng_irrelevant"],
                 note="partial correctness: termination of the retry loop is probabilistic and assumed; random.shuffle contract V6"),
 }
+
+# vacuity guards: for every property-level theorem a concrete instance satisfying all its hypotheses is machine-checked in
+# lean/Contracts/Witness.lean (written by an independent reviewer, see lean/AUDIT.md); the check builds it and lists these per property
+WITNESS_MODULE = "Contracts.Witness"
+WITNESSES = {'C01': ['C01_witness'], 'C02': ['C02_witness'], 'C03': ['C03_pipeline_witness', 'C03_fixpoint_witness'], 'C04': ['C04_witness'], 'C05': ['C05_witness'], 'C06': ['C06_reader_witness'], 'C07': ['render_ok_witness'], 'C08': ['v2000_witness', 'C08_witness'], 'C09': ['C09_witness'], 'C11': ['C11_norm_witness'], 'C12': ['C12_witness'], 'C13': ['C13_witness'], 'C15': ['C15_witness'], 'C16': ['permute_runs', 'permute_witness']}
+WITNESSES = {k: ["Contracts.Witness." + n for n in v] for k, v in WITNESSES.items()}
